@@ -20,7 +20,11 @@ func (Prop) ID() string    { return "C01" }
 func (Prop) Level() string { return "model_checking" }
 func (Prop) Configs(tier string) []string {
 	// SM3 dispatch depends on avx2+bmi2 / avx|ssse3 / none, and the purego tag.
-	return []string{"c-default", "c-noavx2", "c-sse", "c-scalar", "c-nobmi2", "c-purego"}
+	// c-avxoff / c-ssse3off: single flags off while the wider ones stay on (the flags do not cascade)
+	if tier == "thorough" {
+		return []string{"c-default", "c-noavx2", "c-sse", "c-scalar", "c-nobmi2", "c-purego", "c-avxoff", "c-ssse3off"}
+	}
+	return []string{"c-default", "c-noavx2", "c-sse", "c-scalar", "c-nobmi2", "c-purego", "c-avxoff"}
 }
 func (Prop) SelfTest() error { return sm3ref.StreamSelfTest() } // includes sm3ref.SelfTest
 func (Prop) Rule() string {
